@@ -23,5 +23,15 @@ SameCached(o) == \A i, j \in DOMAIN o.results :
 \* "a fetch that fails never creates or overwrites a cache file"; and no cache file ever holds anything but a resource's text
 CacheSafe(o) == /\ \A x \in DOMAIN o.fetchok : ~o.fetchok[x] => o.cache_after[x] = o.cache_before[x]
                 /\ \A x \in DOMAIN o.fetchok : o.cache_after[x] # "other"
+\* "... until refresh": a load(u) that follows a refresh(u) of the same url, with no change of a resource in between,
+\* shows every resource it is made of in its current state (results[i].vers: the version of each resource found in the
+\* returned document, .cur: the version the resource had at its source when the call returned)
+RefreshedBefore(o, i) == \E j \in 1..(i - 1) : /\ o.results[j].op = "refresh" /\ o.results[j].url = o.results[i].url /\ o.results[j].res = "ok"
+                                               /\ \A m \in (j + 1)..(i - 1) : o.results[m].op # "touch"
+                                               \* (a loader started in the background before the resource changed may still be
+                                               \* running when refresh is called; what refresh owes the caller then is not stated)
+                                               /\ \A m \in 1..(j - 1) : o.results[m].op # "deferred_load"
+FreshAfterRefresh(o) == \A i \in DOMAIN o.results :
+                           (o.results[i].op = "load" /\ o.results[i].res = "ok" /\ RefreshedBefore(o, i)) => o.results[i].vers = o.results[i].cur
 Terminates(o) == ~o.deadlock
 ====
